@@ -30,6 +30,9 @@ type ccSys struct {
 	lru    []string // most recent first (only when limit > 0)
 	draw   float64
 	n      int
+	// a fetch has panicked in this history: the single-flight group inside the cache is not
+	// visible from here, so such histories are kept apart from the ones without a panic
+	panicked bool
 }
 
 func newCcSys(r *vrt.Run, limit, expire, phase int) *ccSys {
@@ -153,13 +156,40 @@ func (s *ccSys) apply(op string) {
 		calls := 0
 		fetchErr := errors.New("fetch failed")
 		v := fmt.Sprintf("f%d", s.n)
-		got, err := s.c.Take(f[1], func() (any, error) {
-			calls++
-			if f[2] == "err" {
-				return nil, fetchErr
+		var got any
+		var err error
+		var pan any
+		func() {
+			defer func() { pan = recover() }()
+			got, err = s.c.Take(f[1], func() (any, error) {
+				calls++
+				if f[2] == "err" {
+					return nil, fetchErr
+				}
+				if f[2] == "panic" {
+					panic("fetch panic")
+				}
+				return v, nil
+			})
+		}()
+		if f[2] == "panic" {
+			s.panicked = true
+			// a fetch that panics: the panic reaches the caller, nothing is cached, and the
+			// cache stays usable (the next take of the key fetches afresh)
+			if _, ok := s.m[f[1]]; ok {
+				if calls != 0 || pan != nil {
+					s.r.Failf("Take(%s) on a cached key ran the fetch (%d calls, panic %v)", f[1], calls, pan)
+				}
+				s.touch(f[1])
+			} else if calls != 1 || pan == nil {
+				s.r.Failf("Take(%s) with a panicking fetch: fetch calls=%d, panic seen by the caller: %v", f[1], calls, pan)
 			}
-			return v, nil
-		})
+			break
+		}
+		if pan != nil {
+			s.r.Failf("Take(%s) panicked: %v", f[1], pan)
+			break
+		}
 		if e, ok := s.m[f[1]]; ok {
 			if calls != 0 || err != nil || got != e.val {
 				s.r.Failf("Take(%s) on a cached key: fetch calls=%d result=%v,%v want cached %s", f[1], calls, got, err, e.val)
@@ -243,7 +273,7 @@ func (s *ccSys) canon() string {
 		return true
 	})
 	sort.Strings(timers)
-	return fmt.Sprintf("ph%d|draw%g|%v|lru%v|real=%v/%v/%v", s.T%slots, s.draw, parts, s.lru, data, lru, timers)
+	return fmt.Sprintf("ph%d|draw%g|%v|lru%v|real=%v/%v/%v|panicked=%v", s.T%slots, s.draw, parts, s.lru, data, lru, timers, s.panicked)
 }
 
 func TestVerifCacheHistories(t *testing.T) {
@@ -267,7 +297,7 @@ func TestVerifCacheHistories(t *testing.T) {
 		c := c
 		lo, hi := ccWindow(c.expire)
 		ops := []string{"set:a", "set:b", "set:c", "setchk:a", "setx:a:2", "setx:a:200", "setx:a:310", "get:a", "get:b", "get:c", "del:a", "del:b",
-			"take:a:ok", "take:a:err", "take:b:ok", "draw:lo", "draw:hi", "t:1", fmt.Sprintf("t:%d", lo-1), fmt.Sprintf("t:%d", hi+1), "t:205", "t:320"}
+			"take:a:ok", "take:a:err", "take:a:panic", "take:b:ok", "draw:lo", "draw:hi", "t:1", fmt.Sprintf("t:%d", lo-1), fmt.Sprintf("t:%d", hi+1), "t:205", "t:320"}
 		vrt.BFS(vrt.Options{Name: fmt.Sprintf("cache/limit=%d/expire=%ds/phase=%d", c.limit, c.expire, c.phase), Budget: vrt.FairBudget(1)}, depth, ops, func(r *vrt.Run, hist []string) vrt.Step {
 			s := newCcSys(r, c.limit, c.expire, c.phase)
 			for _, op := range hist {
